@@ -195,6 +195,7 @@ def run(chk: Check) -> None:
                 r2.violation(f"{c}.{attr} set only by nativeparse", f"mypy/nativeparse.py:{y[attr]}", f"the native parser sets {c}.{attr}, the default parser never does")
 
     run_overloads(chk, ix)
+    run_diagnostic_parity(chk, ix)
 
     r3 = chk.rule("R14.3", "Errors.report clamps end_line >= line and (same line) end_column > column before the ErrorInfo is built", floor=2)
     rp = ix.func("mypy.errors.Errors.report")
@@ -301,3 +302,25 @@ def run_overloads(chk: Check, ix) -> None:
                     r4.violation(key, f.loc(n), "the counter of functions read so far is lowered or overwritten: an enclosing statement list then sees `fewer than two functions below` and skips overload merging, so conditional overloads nested in `if` blocks are not joined with the items outside (the default parser merges every list)")
     else:
         r4.violation("read_statements: overload merging is skipped only by the function-count shortcut", rs.loc(calls[0]), f"fix_function_overloads is guarded by {[norm(t) for t in pos + neg]}")
+
+
+def run_diagnostic_parity(chk: Check, ix) -> None:
+    """R14.5: what the default front end rejects or warns about at parse time, the native front end does too."""
+    r5 = chk.rule("R14.5", "every message_registry diagnostic that fastparse.py reports through fail() is also reported by nativeparse.py (or is tabled: about type comments, which the native parser does not read, or produced by the external serializer)", floor=15)
+    fp = ix.module("mypy.fastparse")
+    npm = ix.module("mypy.nativeparse")
+    used = {}
+    for n in ast.walk(fp.tree):
+        if isinstance(n, ast.Call) and isinstance(n.func, ast.Attribute) and n.func.attr in ("fail", "fail_arg"):
+            for x in ast.walk(n):
+                if isinstance(x, ast.Attribute) and norm(x.value) == "message_registry":
+                    used.setdefault(x.attr, n.lineno)
+    native = {x.attr for x in ast.walk(npm.tree) if isinstance(x, ast.Attribute) and norm(x.value) == "message_registry"}
+    if len(used) < 15:
+        raise AnalysisError(f"only {len(used)} message_registry diagnostics found in fastparse.fail calls")
+    for name, ln in sorted(used.items()):
+        key = f"parse-time diagnostic {name} is reported by both front ends"
+        if name in native:
+            r5.ok(key, f"mypy/fastparse.py:{ln}")
+        else:
+            r5.violation(key, f"mypy/fastparse.py:{ln}", f"the default parser reports message_registry.{name}; nativeparse.py never does: the construct is accepted silently (or diagnosed differently) under --native-parser")
